@@ -414,4 +414,7 @@ def finalize(agg):
     for role in ('impl', 'expl', 'imex'):
         if role not in agg['seen'].get('role', ()):
             out.append(f'role {role} never ran')
+    for k, why in (('rk_steps_with_changed_dt', 'no Runge-Kutta step with a changed step size was judged'), ('sdc_steps_with_changed_dt', 'no SDC step with a changed step size was judged'), ('rkn_rates', 'no Runge-Kutta-Nystrom rate was measured')):
+        if c.get(k, 0) == 0:
+            out.append(why)
     return out
